@@ -252,7 +252,7 @@ class KernExporter(object):
         symbols = ""
         if not isinstance(element, spt.Rest):
             if element.tie_next and element.tie_prev:
-                symbols += "-"
+                symbols += "_"
             elif element.tie_next:
                 symbols += "["
             elif element.tie_prev:
